@@ -143,6 +143,7 @@ static DBusAuthState work_and_print (DBusAuth *auth, int old_out_len)
     }
   else fputs ("-", stdout);
   putchar (' ');
+  if (getenv ("VERIF_FLUSH") != NULL) fflush (stdout);
   return rc;
 }
 
@@ -206,6 +207,7 @@ static void do_auth (char **toks, int ntok)
   DBusCredentials *cred;
   DBusAuthState rc = DBUS_AUTH_STATE_WAITING_FOR_INPUT;
   char *mech_store = NULL; const char *mechv[16]; int nm = 0;
+  char *ctx_to_set = NULL;
   char *save, *st;
 
   have_chal = 0; last_id = -1; last_ctx[0] = 0; last_chal[0] = 0;
@@ -220,8 +222,13 @@ static void do_auth (char **toks, int ntok)
   if (strcmp (s_ctx, "-") != 0)
     {
       int n; unsigned char *b = unhex (s_ctx, &n);
-      if (n > 500 || has_nul (b, n)) { printf ("?bad-context\n"); free (b); free (steps); return; }
+      if (n > 23 || has_nul (b, n)) { printf ("?bad-context\n"); free (b); free (steps); return; }
       memcpy (ctx, b, (size_t) n); ctx[n] = 0; free (b);
+      _dbus_string_init_const (&ctxs, ctx);
+      ctx_to_set = strdup (ctx);
+      /* _dbus_auth_set_context overwrites only the first strlen(new) bytes of the previous
+       * (default) context; the keyring file the server will look at is named after the result */
+      if (n < (int) strlen ("org_freedesktop_general")) strcat (ctx, "org_freedesktop_general" + n);
     }
   if (strcmp (s_keys, "-") != 0 && strcmp (s_kdir, "none") != 0 && strchr (ctx, '/') == NULL && ctx[0] != 0)
     {
@@ -265,9 +272,9 @@ static void do_auth (char **toks, int ntok)
     }
   if (!_dbus_auth_set_credentials (auth, cred)) abort ();
   _dbus_auth_set_unix_fd_possible (auth, !strcmp (s_fdp, "1"));
-  if (strcmp (s_ctx, "-") != 0)
+  if (ctx_to_set != NULL)
     {
-      _dbus_string_init_const (&ctxs, ctx);
+      _dbus_string_init_const (&ctxs, ctx_to_set);
       if (!_dbus_auth_set_context (auth, &ctxs)) abort ();
     }
 
@@ -362,6 +369,7 @@ static void do_auth (char **toks, int ntok)
   _dbus_credentials_unref (cred);
   _dbus_auth_unref (auth);
   free (mech_store);
+  free (ctx_to_set);
   free (steps);
 }
 
